@@ -25,11 +25,18 @@ AllSafe(c) == \A r \in RulesOf(c) : Safe(r)
 Fuel(c) == IF "fuel" \in DOMAIN c THEN c.fuel ELSE 1000
 Expected(c) == StratifiedModelFuel(RulesOf(c), SetOf(c.edb), Fuel(c))
 
+\* In the aggregation family a collected list is read as a set (its order is documented as
+\* unspecified): a list value becomes <<"set", elements, length>> on the observed side.
+IsAgg(c) == "family" \in DOMAIN c /\ c.family = "agg"
+ListAsSet(x) == IF x[1] = "list" THEN <<"set", Ran(x[2]), Len(x[2])>> ELSE x
+NormFact(f) == [p |-> f.p, a |-> [i \in DOMAIN f.a |-> ListAsSet(f.a[i])]]
+Observed(c, v) == IF IsAgg(c) THEN {NormFact(f) : f \in SetOf(v.got)} ELSE SetOf(v.got)
+
 Verdict(c, v) ==
   IF ~AllSafe(c) THEN (IF v.outcome = "ok" THEN "ACCEPTED_UNSAFE" ELSE "fine")
   ELSE IF ~Stratifiable(RulesOf(c)) THEN (IF v.outcome = "ok" THEN "ACCEPTED_UNSTRATIFIABLE" ELSE "fine")
   ELSE IF HasErr(RulesOf(c), Expected(c)) THEN "fine"   \* run-time kind error: no model to compare with
-  ELSE CASE v.outcome = "ok" -> IF SetOf(v.got) = Expected(c) THEN "fine" ELSE "MODEL_MISMATCH"
+  ELSE CASE v.outcome = "ok" -> IF Observed(c, v) = Expected(c) THEN "fine" ELSE "MODEL_MISMATCH"
          [] v.outcome = "strat_err" -> "SPURIOUS_STRAT_ERR"
          [] v.outcome \in {"eval_err", "panic"} -> "EVAL_FAILURE"
          [] OTHER -> "fine"
